@@ -502,7 +502,7 @@ def gen_cspec(r, cassis, tspec, n_objs=(1, 12), all_ids=True, max_views=3, nulls
         return lab[0]
 
     n = r.randint(*n_objs)
-    main = [new(r.choice(user), {}) for _ in range(n)]
+    main = [new(TOP if r.random() < 0.04 else r.choice(user), {}) for _ in range(n)]   # now and then a bare uima.cas.TOP
     by_label = {o["o"]: o for o in objs}
 
     def isa(tn, anc):
